@@ -1,6 +1,7 @@
 package props
 
 import (
+	"math"
 	"testing"
 
 	c2 "github.com/bolom009/go-clipper2"
@@ -45,6 +46,25 @@ func drawC08(t *rapid.T) *C08Case {
 		c.Pattern = c2.ReversePath(c.Pattern)
 	}
 	n := rapid.IntRange(1, 8).Draw(t, "n")
+	if R <= 1<<27 && R >= 1000 && rapid.IntRange(0, 79).Draw(t, "longPath") == 41 { // (rapid favours small and extreme values: a mid value keeps this rare)
+		// a long path (more than 1024 parallelograms in all): a wandering polyline whose steps are
+		// about as long as the pattern is wide, so that neighbouring parallelograms overlap and
+		// distant ones do not (sizes the statement covers: "any path")
+		c.Pattern = drawStar(t, 0, 0, float64(pr), float64(pr), "patL")
+		if len(c.Pattern) > 6 {
+			c.Pattern = c.Pattern[:6]
+		}
+		m := 1100/len(c.Pattern) + rapid.IntRange(2, 300).Draw(t, "longN")
+		cur := P{}
+		dir := rapid.Float64Range(0, 6.28).Draw(t, "longDir")
+		for i := 0; i < m; i++ {
+			c.Path = append(c.Path, cur)
+			dir += rapid.Float64Range(-0.9, 0.9).Draw(t, "longTurn")
+			st := float64(pr) * rapid.Float64Range(0.6, 2.5).Draw(t, "longStep")
+			cur = P{X: cur.X + int64(st*math.Cos(dir)), Y: cur.Y + int64(st*math.Sin(dir))}
+		}
+		n = 0
+	}
 	for i := 0; i < n; i++ {
 		switch k := rapid.IntRange(0, 9).Draw(t, "pathPt"); {
 		case k == 0 && len(c.Path) > 0:
@@ -190,7 +210,7 @@ func judgeC08(c *C08Case, cx *Ctx) *Violation {
 			classCache = 2
 		}
 	}
-	cx.St.Eval(c, nIn > 0 && nOut > 0 && (!convex || openSegs || c.Closed), "op:"+sumName(c.Diff), boolLabel("quads-near-degenerate", classCache == 2), boolLabel("closed", c.Closed), boolLabel("convex-pattern", convex), pointsLabel(len(c.Path)), magnitudeLabel(Paths{c.Pattern, c.Path}))
+	cx.St.Eval(c, nIn > 0 && nOut > 0 && (!convex || openSegs || c.Closed), "op:"+sumName(c.Diff), boolLabel("quads-near-degenerate", classCache == 2), boolLabel("closed", c.Closed), boolLabel("convex-pattern", convex), pointsLabel(len(c.Path)), magnitudeLabel(Paths{c.Pattern, c.Path}), boolLabel("more-than-1024-parallelograms", len(quads) > 1024))
 	cx.St.Count("mismatch_attributed_to_listed_engine_finding", int64(att))
 	return nil
 }
